@@ -73,7 +73,7 @@ def run(tier, seed, vh, only_paths=None, mode=None):
             return json.loads(m.group(1))
         first = [l for l in out.splitlines() if l.startswith("panic:") or l.startswith("fatal error") or l.startswith("ERROR")]
         return {"k": "shut", "tr": i + 1, "scen": "+".join(sorted(cases[i]["procs"])), "outcome": "crash" if not any(l.startswith("ERROR") for l in first) else "drivererror",
-                "stuck": [], "res": {"process": (first[0] if first else "exit %d" % rc)[:120]}, "other": "-", "names": "-", "h1": "-", "h2": "-", "count": 0, "feeds": 0}
+                "stuck": [], "res": {"process": (first[0] if first else "exit %d" % rc)[:120]}, "other": "-", "names": "-", "h1": "-", "h2": "-", "count": 0, "feeds": 0, "wgone": "-"}
     with concurrent.futures.ThreadPoolExecutor(max_workers=12) as ex:
         lines = list(ex.map(one, range(len(cases))))
     derr = [l for l in lines if l["outcome"] == "drivererror"]
